@@ -83,6 +83,9 @@ func vcText(fr *FuncResult, ax []axiomInfo, o *Obligation, model bool) string {
 			fmt.Fprintf(&b, "(declare-const %s %s)\n", name, fr.Decls[name])
 		}
 	}
+	for _, d := range o.ExtraDecls {
+		b.WriteString(d + "\n")
+	}
 	for i, a := range ax {
 		if picked[i] {
 			fmt.Fprintf(&b, "(assert %s)\n", a.t.S)
@@ -157,13 +160,19 @@ func (sv *Solver) solve(text string, timeout time.Duration) solveResult {
 		bin  string
 		args []string
 	}
-	first := []cand{
-		{"z3-new", "z3-new", []string{fmt.Sprintf("-T:%d", secs)}},
-		{"cvc5", "cvc5", []string{fmt.Sprintf("--tlimit=%d", secs*1000), "--produce-models"}},
+	quick := []cand{
+		{"z3-new", "z3-new", []string{"-T:1"}},
+		{"cvc5", "cvc5", []string{"--tlimit=1000", "--produce-models"}},
 	}
-	second := []cand{{"z3", "z3", []string{fmt.Sprintf("-T:%d", secs)}}}
-	race := func(cs []cand) solveResult {
-		ctx, cancel := context.WithTimeout(context.Background(), timeout+2*time.Second)
+	full := []cand{
+		{"z3-new", "z3-new", []string{fmt.Sprintf("-T:%d", secs)}},
+		{"z3-new-intblast", "z3-new", []string{fmt.Sprintf("-T:%d", secs), "smt.bv.solver=2"}},
+		{"cvc5", "cvc5", []string{fmt.Sprintf("--tlimit=%d", secs*1000), "--produce-models"}},
+		{"cvc5-bvasint", "cvc5", []string{fmt.Sprintf("--tlimit=%d", secs*1000), "--produce-models", "--solve-bv-as-int=sum"}},
+		{"z3", "z3", []string{fmt.Sprintf("-T:%d", secs)}},
+	}
+	race := func(cs []cand, to time.Duration) solveResult {
+		ctx, cancel := context.WithTimeout(context.Background(), to+2*time.Second)
 		defer cancel()
 		ch := make(chan solveResult, len(cs))
 		for _, c := range cs {
@@ -190,9 +199,9 @@ func (sv *Solver) solve(text string, timeout time.Duration) solveResult {
 		}
 		return res
 	}
-	res := race(first)
-	if res.Status == "unknown" {
-		r2 := race(second)
+	res := race(quick, time.Second)
+	if res.Status == "unknown" && timeout > time.Second {
+		r2 := race(full, timeout)
 		if r2.Status != "unknown" {
 			res = r2
 		} else {
@@ -230,12 +239,28 @@ func (sv *Solver) solveObl(fr *FuncResult, ax []axiomInfo, o *Obligation, text s
 	if !ok {
 		return sv.solve(text, sv.timeout)
 	}
+	// (a) drop quantified hypotheses altogether: fewer assumptions, so unsat is still a proof
+	o0 := *o
+	o0.Hyps = nil
+	for _, h := range o.Hyps {
+		if !quantHypRe.MatchString(h.S) {
+			o0.Hyps = append(o0.Hyps, h)
+		}
+	}
+	if r0 := sv.solve(vcText(fr, ax, &o0, false), 3*time.Second); r0.Status == "unsat" {
+		r0.Solver += "+noquant"
+		return r0
+	}
 	gres := sv.solve(vcText(fr, ax, g, true), sv.timeout)
 	if gres.Status == "unsat" {
 		gres.Solver += "+inst"
 		return gres
 	}
-	full := sv.solve(text, sv.timeout)
+	ft := sv.timeout
+	if gres.Status == "sat" && ft > 5*time.Second {
+		ft = 5 * time.Second
+	}
+	full := sv.solve(text, ft)
 	if full.Status == "unsat" || full.Status == "sat" {
 		return full
 	}
